@@ -95,7 +95,7 @@ BUDGET = {"quick": 1200, "thorough": 60000}
 
 
 def leg(part, tier, shard, nshards):
-    P.run_pool_leg(part, PROP, harnesses(tier), BUDGET[tier], global_budget={"quick": 150000, "thorough": 2000000}[tier])
+    P.run_pool_leg(part, PROP, harnesses(tier), BUDGET[tier], global_budget={"quick": 150000, "thorough": 1200000}[tier])
 
 
 LEGS = {"constructor": leg_ctor, "schedules": leg}
